@@ -2,7 +2,7 @@
    Statements only; proofs in Proofs/SessionProofs.v over the hand model Model/Session.v, tied to NodeRequire.evaluate by
    the correspondence run of checks/C11.py (generated module graphs on disk, every import form). *)
 From Coq Require Import ZArith List Bool.
-From Ckl Require Import Model.Session Proofs.SessionProofs.
+From Ckl Require Import Model.Session Proofs.SessionProofs Proofs.SessionFuel.
 Import ListNotations.
 Open Scope Z_scope.
 
@@ -36,6 +36,12 @@ Print Assumptions C11_private_never_exported.
 Theorem C11_members_public : forall menv n z, lookup n (exports_of menv) = Some z -> private n = false.
 Proof. exact exports_public. Qed.
 Print Assumptions C11_members_public.
+
+(* require terminates on every module graph, cyclic or not: with more fuel than there are module files not yet being loaded
+   the loader returns a module or an error - a cycle of requires is reported instead of looping *)
+Theorem C11_loader_terminates : forall p fuel g m, (free p (stack g) < fuel)%nat -> no_fuel (snd (req fuel p g m)).
+Proof. exact req_enough_fuel. Qed.
+Print Assumptions C11_loader_terminates.
 
 (* a cycle of requires is reported as an error; both modules stay unloaded *)
 Example C11_cycle_is_error :
